@@ -96,7 +96,7 @@ def run_rt(c):
     spec, o = c['spec'], c['opts']
     tmp = None
     try:
-        t = tables.build(spec)
+        t = build_case(c)
         fmt_name = o['fmt']
         try:
             if c['mode'] in ('convert', 'cli'):
@@ -154,6 +154,21 @@ def run_rt(c):
     finally:
         if tmp:
             shutil.rmtree(tmp, ignore_errors=True)
+
+
+def build_case(c):
+    """tables.build + optionally an explicitly stored zero: the cell zero_at is built non-zero and
+    then overwritten with 0.0 through the public matrix_data object (scipy keeps the entry)"""
+    spec = c['spec']
+    z = c.get('zero_at')
+    if not z:
+        return tables.build(spec)
+    i, j = z
+    mat = [list(row) for row in spec['mat']]
+    mat[i][j] = 7.0
+    t = tables.build(dict(spec, mat=mat))
+    t.matrix_data[i, j] = 0.0
+    return t
 
 
 def reprocess(t2, process, tmp):
@@ -502,6 +517,9 @@ def gen_rt(rng, tier, promised_only=False):
     modes = ['lines', 'lines', 'handle', 'path', 'gz', 'convert']
     mode = rng.choice(modes)
     c = {'kind': 'rt', 'spec': spec, 'opts': opts, 'process': process, 'mode': mode}
+    zeros = [(i, j) for i, row in enumerate(spec['mat']) for j, v in enumerate(row) if v == 0]
+    if zeros and rng.random() < 0.3:
+        c['zero_at'] = list(rng.choice(zeros))
     if mode in ('lines', 'handle') and rng.random() < 0.3:
         c['direct'] = True
     if promised_only or mode == 'convert' or rng.random() < 0.7:
@@ -558,7 +576,7 @@ def gen_text(rng):
     base = gen_rt(rng, 'quick', True)
     base['mode'] = 'lines'
     try:
-        t = tables.build(base['spec'])
+        t = build_case(base)
         o = base['opts']
         lines = t.to_tsv(header_key=o['hk'], header_value=o['hv'], metadata_formatter=FORMATTERS[o['fmt']]).split('\n')
     except Exception:
@@ -662,7 +680,7 @@ def classify(c):
     if any(ord(ch) > 127 for i in spec['oids'] + spec['sids'] for ch in i):
         tags.append('ids:non-ascii')
     try:
-        tags.append('layout:' + tables.layout_info(tables.build(spec)))
+        tags.append('layout:' + tables.layout_info(build_case(c)))
     except Exception:
         tags.append('layout:unbuildable')
     return tags
